@@ -217,6 +217,37 @@ def literal_escape_text(rng):
     return ops_
 
 
+def long_text_far_change_points(rng):
+    """A text longer than 256 characters whose style change points lie beyond index 256 (outside the range in
+    which equal small integers are one object in CPython), so that later queries, slices and edits land on
+    and next to them."""
+    n = rng.randint(262, 300)
+    unit = rng.choice(['ab', 'ab-', 'a b', 'abc'])
+    text = (unit * (n // len(unit) + 1))[:n]
+    ops_ = [_new(text, [rng.choice(CONFLICT_RICH)] if rng.random() < 0.4 else None, 0)]
+    for _ in range(rng.choice([1, 2, 2, 3])):
+        a = rng.randint(257, n - 2)
+        b = None if rng.random() < 0.35 else rng.randint(a + 1, n)
+        ops_.append(_apply(0, [rng.choice(CONFLICT_RICH)], a, b, top=rng.random() < 0.8))
+    return ops_
+
+
+def same_codes_grouped_differently(rng):
+    """Two neighbouring spans whose code sequences read the same but are grouped into settings differently (one
+    multi-code setting against the same codes as separate settings): whoever compares stacks by their joined text
+    instead of setting by setting confuses them."""
+    multi, parts = rng.choice([('v:1;31', ['v:1', 'v:31']), ('v:1;31', ['n:bold', 'n:red']), ('a:4;34', ['i:4', 'i:34']),
+                               ('a:4;34', ['n:underline', 'n:blue'])])
+    n = rng.choice([4, 5, 6])
+    text = ''.join(rng.choice('ab') for _ in range(n))
+    k = rng.randrange(1, n)
+    first, second = ([multi], parts) if rng.random() < 0.5 else (parts, [multi])
+    ops_ = [_new(text, None, 0), _apply(0, first, 0, k), _apply(0, second, k, None if rng.random() < 0.5 else n)]
+    if rng.random() < 0.5:
+        ops_.append({'op': 'find', 'r': 0, 'st': [multi] if rng.random() < 0.5 else parts, 'a': 0, 'b': None, 'rev': rng.random() < 0.3})
+    return ops_
+
+
 def pick(rng, prop):
     x = rng.random()
     name = rng.choice(NAMES)
@@ -225,6 +256,8 @@ def pick(rng, prop):
     ror = restart_overlay_remove(rng)
     nes = nested_equal_spans_then_remove(rng)
     esc = literal_escape_text(rng)
+    far = long_text_far_change_points(rng)
+    grp = same_codes_grouped_differently(rng)
     if x < 0.20:
         return copy.deepcopy(SCENARIOS[name])
     if x < 0.28:
@@ -237,4 +270,8 @@ def pick(rng, prop):
         return nes
     if x < 0.59:
         return esc
+    if x < 0.61:
+        return far
+    if x < 0.63:
+        return grp
     return None
